@@ -381,6 +381,8 @@ def run(rep):
                                     rep.violation(ob, _sig(sizes, fmt, variant, f" {pname} permutation, {vname}"), inputs=inp2, detail=detail, confirmed=True)
                             # (c) blocks in different units: the rows of block k scaled by 2**(+-30) (exact in binary floating point), so that the
                             # entries of the inverse differ by 18 orders of magnitude between blocks; judged after undoing the scaling
+                            if quick and pname != "independent":
+                                continue
                             off = np.cumsum([0] + list(sizes))
                             s = np.ones(n)
                             for q in range(len(sizes)):
